@@ -9,7 +9,9 @@ import (
 	"bytes"
 	"compress/gzip"
 	"compress/zlib"
+	"encoding/json"
 	"fmt"
+	"io"
 	"io/ioutil"
 	"os"
 	"reflect"
@@ -527,3 +529,59 @@ func (l *verifMutex) Unlock() { l.m.Unlock() }
 
 // nondetFixed: a nondeterministic string of exactly n bytes.
 func nondetFixed(name string, n int) string { return nondetString(name, n) }
+
+// ---------------------------------------------------------------- request bodies (C16)
+
+// verifBody: a request body delivering b.
+func verifBody(b []byte) io.ReadCloser { return ioutil.NopCloser(bytes.NewReader(b)) }
+
+// verifPackBody joins the chunks and applies the coding ("" none, "gzip", "deflate"). Under the symbolic executor the
+// result is one opaque token that the matching decompressor model opens again.
+func verifPackBody(coding string, chunks [][]byte) []byte {
+	var all []byte
+	for _, c := range chunks {
+		all = append(all, c...)
+	}
+	var buf bytes.Buffer
+	switch coding {
+	case "gzip":
+		w := gzip.NewWriter(&buf)
+		w.Write(all)
+		w.Close()
+	case "deflate":
+		w := zlib.NewWriter(&buf)
+		w.Write(all)
+		w.Close()
+	default:
+		return all
+	}
+	return buf.Bytes()
+}
+
+// verifCorruptBody breaks a body: mode 0 cuts it in half, mode 1 destroys its first two bytes. Symbolically the
+// result is an opaque byte string that no decoder or decompressor model accepts.
+func verifCorruptBody(b []byte, mode int) []byte {
+	if mode == 0 {
+		return append([]byte(nil), b[:len(b)/2]...)
+	}
+	out := append([]byte(nil), b...)
+	for i := 0; i < 2 && i < len(out); i++ {
+		out[i] = 0xff
+	}
+	return out
+}
+
+// verifAsInt64: the integer an untyped decoded number stands for (json.Number with a number-preserving decoder,
+// float64 otherwise).
+func verifAsInt64(a interface{}) (int64, bool) {
+	switch x := a.(type) {
+	case int64:
+		return x, true
+	case json.Number:
+		n, err := x.Int64()
+		return n, err == nil
+	case float64:
+		return int64(x), true
+	}
+	return 0, false
+}
